@@ -5,7 +5,7 @@ makeMethodArshaler / typedArshalers.lookup / DepthLength policing chooses.
   disp m <ms4> <legacy> <forced> <dfltOk> <levels> <fns> <behaviours>      marshal
   disp u <ms3> <legacy> <forced> <dfltOk> <levels> <fns> <behaviours>      unmarshal
   disp d …   the same two with the DOCUMENTED order instead of the composed wrappers (md / ud)
-  disp police <prefix-ops> <script> <ret>                                  one policed call
+  disp police <floor> <prefix-ops> <script> <ret>                          one policed call (floor: e = entry depth, or a number)
 
   ms       digits 0 absent, 1 value receiver, 2 pointer receiver (To J A T / From U Tx)
   levels   comma separated  code[:prefix-ops[:input-kind]]   code: c container, i interface, z nil interface,
@@ -179,13 +179,19 @@ def handle (op : String) (args : List String) : String :=
   | "u", _ => handleDispatch "u" false args
   | "md", _ => handleDispatch "m" true args
   | "ud", _ => handleDispatch "u" true args
-  | "police", [pre, script, ret] =>
+  | "police", [floor, pre, script, ret] =>
+    -- floor: "e" = the stack length at entry (what the fixed code does), or a number (0 = the code before the fix)
     match opsOfString pre, opsOfString script, retOfString ret with
     | some p, some s, some r =>
       match runScript maxDepth p Machine.init with
       | (m, none) =>
-        let after := (runScript maxDepth s m).1
-        s!"{showResult (userCall maxDepth m s r)} {m.depthLength.1} {m.depthLength.2} {after.depthLength.1} {after.depthLength.2}"
+        let fl := if floor == "e" then m.stack.length else floor.toNat?.getD 0
+        let run := runPoliced maxDepth fl s m
+        let e := match run.2 with
+          | none => "-"
+          | some .enclosingEnd => "enclosingEnd"
+          | some (.sm _) => "sm"
+        s!"{showResult (userCallWithFloor maxDepth fl m s r)} {m.depthLength.1} {m.depthLength.2} {run.1.depthLength.1} {run.1.depthLength.2} {e}"
       | (_, some _) => "ERR bad-prefix"
     | _, _, _ => badArgs
   | _, _ => "ERR unimplemented"
